@@ -1920,6 +1920,24 @@ func (k *Kernel) handleReplayedHeader(
 
 	h, r := header.Height, proof.Round
 
+	// The signatures in the proof must be checked against
+	// the validator set we expect for this height,
+	// not against whatever set the replayed header claims.
+	if !header.ValidatorSet.Equal(s.Voting.ValidatorSet) ||
+		!validatorSetConsistent(header.ValidatorSet, k.hashScheme) {
+		return tmelink.ReplayedHeaderValidationError{
+			Err: fmt.Errorf(
+				"replayed header's validator set (pub key hash %x) differs from expected validator set (pub key hash %x)",
+				header.ValidatorSet.PubKeyHash, s.Voting.ValidatorSet.PubKeyHash,
+			),
+		}
+	}
+	if !validatorSetConsistent(header.NextValidatorSet, k.hashScheme) {
+		return tmelink.ReplayedHeaderValidationError{
+			Err: errors.New("replayed header's next validator set does not match its own hashes"),
+		}
+	}
+
 	// We might have a valid header.
 	// Confirm the hash first,
 	// under the assumption that it is cheaper to validate the hash than the signatures.
@@ -2120,6 +2138,33 @@ func (k *Kernel) handleReplayedHeader(
 	}
 
 	return nil
+}
+
+// validatorSetConsistent reports whether the validator and public key lists in vs
+// agree with each other and hash to the hashes recorded in vs.
+// The block hash only covers the two hashes,
+// so lists received from the network must be checked against them before use.
+func validatorSetConsistent(vs tmconsensus.ValidatorSet, hs tmconsensus.HashScheme) bool {
+	if len(vs.Validators) == 0 || len(vs.Validators) != len(vs.PubKeys) {
+		return false
+	}
+	for i, v := range vs.Validators {
+		if v.PubKey == nil || vs.PubKeys[i] == nil || !v.PubKey.Equal(vs.PubKeys[i]) {
+			return false
+		}
+	}
+
+	keyHash, err := hs.PubKeys(vs.PubKeys)
+	if err != nil || !bytes.Equal(keyHash, vs.PubKeyHash) {
+		return false
+	}
+
+	powHash, err := hs.VotePowers(tmconsensus.ValidatorsToVotePowers(vs.Validators))
+	if err != nil || !bytes.Equal(powHash, vs.VotePowerHash) {
+		return false
+	}
+
+	return true
 }
 
 // loadInitialView loads the committing or voting RoundView
